@@ -23,11 +23,15 @@ from mc.ref import c10_ref as ref
 
 PROPERTY = "C10"
 RULE = (
-    "full product of: engine seed {0,1,VERIF_SEED-derived} x chains x (kernels, quantity generators) x "
-    "schedule (epoch-type sequences up to the tier's length with durations/thinning from a small set) x chunk "
-    "(every divisor of the gcd) x jitter {none, key-ignoring, key-using} x initial state {replicated, per-chain}; "
-    "each configuration = 3 + chains complete engine runs (seed twice, PRNGKey form, one perturbed chain each). "
-    "Distinct outcome = (sub-check, verdict pattern / event kinds seen / configuration class)."
+    "configuration lattice: engine seed {0,1,VERIF_SEED-derived} x chains x (kernels, quantity generators) x "
+    "schedule (epoch-type sequences up to the tier's length, durations/thinning from a small set) x chunk (every "
+    "divisor of the gcd) x jitter {none, key-ignoring, key-using} x initial state {replicated, per-chain}. Part 1: "
+    "for every (schedule, chunk) the product chains x jitter x init is walked with a rotating stride (quick 3/9, "
+    "thorough 5) while (kernels, generators), seed and perturbed chain cycle; part 2: the complete product "
+    "(kernels, generators) x chains x jitter x init on reference schedules with every chain perturbed. Each "
+    "configuration = 2-3 + #perturbed complete engine runs (int seed [twice], PRNGKey form, perturbed chains) on "
+    "fresh builders/engines, compared leaf by leaf. Distinct outcome = (sub-check, verdict / event kinds seen / "
+    "init form x jitter)."
 )
 ASSUMPTIONS = [
     "keys are legacy uint32[2] threefry keys; 'distinct key' is decided on the raw key words recorded by the tracer kernels, the quantity generators and the jitter functions",
@@ -124,8 +128,11 @@ def bounds(tier):
         "chunk": "every divisor of gcd(durations); gcd through EngineBuilder.build(), smaller ones through the Engine constructor with the builder's seeds/states",
         "jitter": ["none", "det", "key"],
         "init": ["replicated", "multi"],
-        "real_kernel_sets": [n for n, _ in REAL_SETS],
+        "real_kernel_sets": [n for n, _ in (REAL_SETS[:3] if tier == "quick" else REAL_SETS)],
         "lineage": {"fanout": 4, "depth": 2},
+        "part1_stride": {"quick": "3 (one epoch) / 9 (two epochs)", "thorough": 5}[tier],
+        "tracer_cases": len(tracer_cases(tier, 0)),
+        "real_kernel_cases": len(real_cases(tier, 0)),
     }
 
 
